@@ -332,10 +332,32 @@ def rule_const(ctx: Ctx) -> RuleReport:
     for g in zg:
         chk(_guard_kind(ctx, z, g) == "<zip-flag:1>", "ZIP general purpose bit 0", ARCH, z.qual, norm(g.test), "the ZIP encryption test must mask exactly bit 0 of flag_bits")
     x = ctx.p.func(ENC, "is_xls_encrypted")
-    cmp_ = [n for n in walk_own(x.node) if isinstance(n, ast.Compare) and isinstance(n.left, ast.Name) and len(n.ops) == 1 and isinstance(n.ops[0], ast.Eq) and isinstance(ctx.folder.fold(x.module, n.comparators[0]), int)
-            and any(isinstance(i, ast.If) and i.test is n and any(isinstance(r, ast.Return) and isinstance(r.value, ast.Constant) and r.value.value is True for r in ast.walk(i)) for i in walk_own(x.node))]
-    chk(len(cmp_) == 1 and isinstance(cmp_[0].ops[0], ast.Eq) and ctx.folder.fold(x.module, cmp_[0].comparators[0]) == 0x002F, "BIFF FILEPASS 0x002F", ENC, x.qual,
-        norm(cmp_[0]) if cmp_ else "?", "is_xls_encrypted must look for record id 0x002F (FILEPASS)")
+    # every positive exit of the record scan is under `record id == 0x002F` and nothing else about the record
+    def pos_exits(body, guards):
+        for st in body:
+            if isinstance(st, ast.Return) and isinstance(st.value, ast.Constant) and st.value.value is True:
+                yield st, guards
+            elif isinstance(st, ast.If):
+                yield from pos_exits(st.body, guards + [st.test])
+                yield from pos_exits(st.orelse, guards)
+            elif isinstance(st, (ast.For, ast.While, ast.With, ast.Try)):
+                for fld in ("body", "orelse", "finalbody"):
+                    yield from pos_exits(getattr(st, fld, []), guards)
+                for h in getattr(st, "handlers", []):
+                    yield from pos_exits(h.body, guards)
+
+    exits = list(pos_exits(x.node.body, []))
+    if not exits:
+        rep.fail(Finding("C08-CONST", ENC, x.qual, "?", "is_xls_encrypted has no positive exit"))
+    for st, guards in exits:
+        ids = []
+        for g in guards:
+            for c in ([g] if not isinstance(g, ast.BoolOp) else g.values):
+                if isinstance(c, ast.Compare) and len(c.ops) == 1 and isinstance(c.ops[0], (ast.Eq, ast.In)) and isinstance(c.left, ast.Name):
+                    vv = ctx.folder.fold(x.module, c.comparators[0])
+                    ids.append(vv if isinstance(vv, int) else tuple(vv) if isinstance(vv, (tuple, list, set, frozenset)) else UNKNOWN)
+        chk(ids == [0x002F], "BIFF FILEPASS 0x002F", ENC, x.qual, "positive exit under record id " + ",".join(hex(i) if isinstance(i, int) else str(i) for i in ids),
+            "is_xls_encrypted answers True under a record test other than `record id == 0x002F` (FILEPASS): " + " and ".join(short(g, 50) for g in guards) + " — FILEPASS is the only BIFF record that means the stream is encrypted (PASSWORD 0x0013, WRITEPROT 0x0086, PROTECT 0x0012 are sheet/workbook protection of unencrypted files)")
     streams = {n.value for n in walk_own(x.node) if isinstance(n, ast.Constant) and isinstance(n.value, str) and n.value in ("Workbook", "Book")}
     chk(streams == {"Workbook", "Book"}, "XLS streams Workbook/Book", ENC, x.qual, ",".join(sorted(streams)), "is_xls_encrypted must scan the Workbook (BIFF8) or Book (BIFF5) stream")
     h = ctx.p.func(ENC, "_has_ole_encryption_stream")
